@@ -249,7 +249,16 @@ class Interpreter(BaseInterpreter[TContext, TEvent]):
             # We use a synthetic init event to allow any entry actions on the
             # root state to execute.
             init_event = Event(type="___xstate_statemachine_init___")
-            await self._enter_states([self.machine], init_event)
+            self._transition_in_flight = True
+            try:
+                await self._enter_states([self.machine], init_event)
+            finally:
+                self._transition_in_flight = False
+            if self._failure_notice_deferred:
+                # a service failed while the initial entry was suspended in
+                # an awaiting action: the configuration is complete now
+                self._failure_notice_deferred = False
+                self._notify_subscribers()
 
             # ⚡ Settle eventless ("always") transitions before returning.
             #
